@@ -2,8 +2,8 @@
 from corr import corr_assemble
 import solversearch as SS
 
-MODULES = ["PyFV.Props.C12"]
-TRANSLATORS = {"T-lim": "python3 harness/translate/tlim.py lean/PyFV/Gen/Limiters.lean"}
+MODULES = ["PyFV.Props.C12", "PyFV.Props.C12Lim", "PyFV.Props.GenEqAvg"]
+TRANSLATORS = {"T-lim": "python3 harness/translate/tlim.py lean/PyFV/Gen/Limiters.lean", "T-avg": "python3 harness/translate/tavg.py lean/PyFV/Gen/AvgGen.lean"}
 
 
 def corr(rng, tier):
